@@ -31,9 +31,18 @@ REAL_POOL = [0.0, 1e-9, -1e-9, 0.3, -0.3, 1.0, -1.0, PI / 2, -PI / 2, PI / 4, -P
              6.2, 0.5, -0.5, 2.0, -2.0, PI / 2 - 1e-9, -PI / 2 + 1e-9, 1.5, -1.5, 0.1, 6.0, 4.0]
 
 
+SAMPLING = {"no_fill": False, "real_range": 7.0}
+
+
 def sample(spec_node, rng, env):
     if isinstance(spec_node, ast.Name):
         t = spec_node.id
+        if t == "real" and SAMPLING["no_fill"]:
+            R = SAMPLING["real_range"]
+            r = rng.random()
+            if r < 0.35:
+                return rng.choice([x for x in REAL_POOL if abs(x) <= R])
+            return rng.uniform(-R, R)
         if t == "real":
             r = rng.random()
             if r < 0.55:
@@ -80,6 +89,11 @@ def main():
     with open(sys.argv[1]) as f:
         spec = json.load(f)
     rng = random.Random(spec.get("seed", 0))
+    SAMPLING["no_fill"] = bool(spec.get("no_fill"))
+    SAMPLING["real_range"] = float(spec.get("real_range", 7.0))
+    import replay as _rp
+    _rp.RTOL = float(spec.get("rtol", _rp.RTOL))
+    _rp.ATOL = float(spec.get("atol", _rp.ATOL))
     ns = base_namespace()
     fn = import_function(spec["function"])
     if hasattr(fn, "py_func"):
